@@ -12,7 +12,8 @@ Types == ScalarTypes \cup OptTypes \cup SeqTypes \cup {"raw"}
 ASSUME PrintT(<<"SIGS", ToJson([op \in A!OpNames |-> A!Ops[op]])>>)
 ASSUME PrintT(<<"LAT", ToJson([t \in Types |-> {ShowArg(t, a) : a \in A!Lat(t)}])>>)
 ASSUME PrintT(<<"CONSTS", ToJson([maxm |-> DecToString(RMAXM), i64max |-> DecToString(RI64MAX),
-                                   i64min |-> DecToString(A!I64MIN), u64max |-> DecToString(RU64MAX)])>>)
+                                   i64min |-> DecToString(A!I64MIN), u64max |-> DecToString(RU64MAX),
+                                   repmax |-> DecToString(RREPMAX)])>>)
 VARIABLE u
 Init == u = 0
 Next == UNCHANGED u
